@@ -76,8 +76,11 @@ def exact_total(spent, slack):
 
 def gen_sequence(r):
     """(ceil_eps, ceil_delta, slack, prior, ops)"""
-    ce = r.choice([float("inf"), 1.0, 1.0, 0.5, 3.0, r.loguniform(1e-3, 100.0)])
-    cd = r.choice([1.0, 0.0, 0.0, 1e-5, 0.5, r.uniform(0, 1), r.loguniform(1e-9, 1e-2)])
+    ce = r.choice([float("inf"), 1.0, 1.0, 0.5, 3.0, r.loguniform(1e-3, 100.0), r.loguniform(1e-3, 100.0),
+                   r.choice([1e-9, 1e-12, 1e-15, 1e-20, 1e6, 1e12])])
+    cd = r.choice([1.0, 0.0, 0.0, 1e-5, 0.5, r.uniform(0, 1), r.loguniform(1e-9, 1e-2),
+                   # delta ceilings far below machine epsilon (1 - delta rounds to 1): the composition must still count
+                   r.choice([1e-15, 1e-16, 1e-17, 1e-20, 2.0 ** -64, 1e-30, 1e-300, r.loguniform(1e-40, 1e-14)])])
     if ce == float("inf") and r.chance(0.5):
         cd = 1.0
     slack = 0.0
@@ -387,6 +390,9 @@ def compare(ctx, seq, recs, outs):
 
 
 FIXED_SEQS = [
+    (1.0, 1e-20, 0.0, [], [("spend", 0.1, 1e-17), ("total",), ("spend", 0.1, 1e-21)] + [("spend", 0.01, 2e-21)] * 6),
+    (1.0, 1e-15, 0.0, [], [("spend", 0.001, 1e-16)] * 12 + [("remaining", 2)]),
+    (1.0, 2.0 ** -64, 0.0, [], [("spend", 0.0, 2.0 ** -66)] * 6 + [("rebuild",)]),
     (1.0, 0.0, 0.0, [], [("spend", 0.1, 0.0)] * 11 + [("remaining", 1)]),
     (1.0, 0.5, 0.25, [(0.1, 0.1)], [("spend", 0.2, 0.1), ("slack", 0.5), ("slack", 0.0), ("spend", 0.7, 0.0),
                                     ("spend", 0.7, 0.0), ("check", 0.1, 0.5), ("rebuild",), ("mutate", 1)]),
